@@ -117,6 +117,23 @@ func Groups(quick bool) []group {
 			}})
 		}
 	}
+	// (1b) curated four-node Workflows: two independent lanes of two nodes, and a diamond with a late joiner. With
+	// eager scheduling an interrupt taken in one lane finds the other lane not started / running / completed
+	// (these only run in the Engine-S part, which owns the schedule)
+	wf4 := map[string]*gprog.Prog{
+		"wf-2lanes":  {Mode: gprog.MWorkflow, Nodes: L("a", "b", "c", "d"), Edges: E("start>a", "a>c", "start>b", "b>d", "c>end", "d>end")},
+		"wf-diamond": {Mode: gprog.MWorkflow, Nodes: L("a", "b", "c", "d"), Edges: E("start>a", "start>b", "a>c", "b>c", "b>d", "c>end", "d>end")},
+	}
+	for _, wk := range sortedKeys(wf4) {
+		p := wf4[wk]
+		gs = append(gs, group{name: "wf4/" + wk, mode: p.Mode, traces: func(emit func(t *Trace)) {
+			for _, cfg := range intConfigs(nodeKeys(p), intMax) {
+				for _, pat := range patterns {
+					emit(&Trace{Prog: p, Script: gprog.Script{}, Ints: map[string]IntCfg{"": cfg}, Pattern: pat})
+				}
+			}
+		}})
+	}
 	// (2) nested graphs, including a cycle through a sub-graph node
 	subLinear := func(mode string) *gprog.Prog {
 		return &gprog.Prog{Mode: mode, Nodes: L("x", "y"), Edges: E("start>x", "x>y", "y>end")}
